@@ -652,7 +652,10 @@ def inline_call(I: Interp, finfo: FuncInfo, selfv, args, kwargs, fr: Frame, node
     try:
         I.exec_block(finfo.node.body, nf)
     except ReturnEx as r:
-        return refine_by_annotation(finfo, r.v)
+        v2 = refine_by_annotation(finfo, r.v)
+        if v2 is not r.v and isinstance(v2, SV) and not st.binder_asms:
+            st.assume_wt(v2)  # A7: the object really is of the declared (sub)class
+        return v2
     return const(None)
 
 
